@@ -576,7 +576,7 @@ pub fn worker_main(prop: &dyn Prop, a: &WorkerArgs) -> i32 {
                 let mut it = s.splitn(2, '|');
                 let sig = it.next().unwrap_or("").to_string();
                 let traits: Vec<String> = it.next().unwrap_or("").split('+').filter(|x| !x.is_empty()).map(|x| x.to_string()).collect();
-                json!({"signature": sig, "traits": traits, "count": n, "tape": tape_to_json(&t)})
+                json!({"signature": sig, "traits": traits, "count": n, "tape": tape_to_json(&t), "identity": identity})
             })
             .collect();
         let line = json!({
@@ -678,7 +678,7 @@ fn absorb_line(sup: &mut Sup, v: &Value) {
     if let Some(a) = v["known"].as_array() {
         for k in a {
             let sig = format!("{}|{}", k["signature"].as_str().unwrap_or(""), traits_of(k).join("+"));
-            let e = sup.known_hits.entry(sig).or_insert((0, k["tape"].clone()));
+            let e = sup.known_hits.entry(sig).or_insert((0, json!({"tape": k["tape"].clone(), "identity": k["identity"].clone()})));
             e.0 += k["count"].as_u64().unwrap_or(0);
         }
     }
@@ -736,7 +736,8 @@ pub fn supervisor_main(prop: &dyn Prop, a: &RunArgs) -> i32 {
                     if code == 1 {
                         // the replay still fails: report with its signature
                         let sig = so.lines().find_map(|l| l.strip_prefix("SIGNATURE ")).unwrap_or("replay-failed").to_string();
-                        sup.failures.push(json!({"signature": sig, "message": format!("saved replay {} fails", f.display()),
+                        let traits: Vec<String> = so.lines().find_map(|l| l.strip_prefix("TRAITS ")).map(|l| l.split('+').filter(|x| !x.is_empty()).map(|x| x.to_string()).collect()).unwrap_or_default();
+                        sup.failures.push(json!({"signature": sig, "traits": traits, "message": format!("saved replay {} fails", f.display()),
                             "detail": so, "replay_file": f.to_string_lossy()}));
                     } else if code != 0 {
                         // a replay that kills the process is a failure of that case too
@@ -776,7 +777,7 @@ pub fn supervisor_main(prop: &dyn Prop, a: &RunArgs) -> i32 {
         let sig = f["signature"].as_str().unwrap_or("").to_string();
         let traits = traits_of(f);
         if let Some(k) = match_known(&known, &sig, &traits) {
-            let e = sup.known_hits.entry(format!("{}|{}", sig, traits.join("+"))).or_insert((0, f.get("tape").cloned().unwrap_or(Value::Null)));
+            let e = sup.known_hits.entry(format!("{}|{}", sig, traits.join("+"))).or_insert((0, json!({"tape": f.get("tape").cloned().unwrap_or(Value::Null), "identity": f.get("identity").cloned().unwrap_or(Value::Null)})));
             e.0 += 1;
             let _ = k;
             continue;
@@ -803,6 +804,23 @@ pub fn supervisor_main(prop: &dyn Prop, a: &RunArgs) -> i32 {
         if let Some(k) = match_known(&known, sig, &traits) {
             let e = known_seen.entry(k.id.clone()).or_insert((0, sig.to_string()));
             e.0 += n;
+        }
+    }
+    if std::env::var_os("VERIF_SAVE_KNOWN").is_some() {
+        // maintenance aid (never used by a registered command): keep one reproducing tape per
+        // listed finding under replays/<id>/ so that the replay tier shows it on every run
+        let dir = root.join("replays").join(&id);
+        let _ = fs::create_dir_all(&dir);
+        for (key, (_, tv)) in &sup.known_hits {
+            let mut it = key.splitn(2, '|');
+            let sig = it.next().unwrap_or("");
+            let traits: Vec<String> = it.next().unwrap_or("").split('+').filter(|x| !x.is_empty()).map(|x| x.to_string()).collect();
+            if let Some(k) = match_known(&known, sig, &traits) {
+                let p = dir.join(format!("{}.json", k.id));
+                if !p.exists() && tv["tape"].as_array().map(|a| !a.is_empty()).unwrap_or(false) {
+                    let _ = fs::write(&p, serde_json::to_string(&json!({"tape": tv["tape"], "identity": tv["identity"], "expect_signature": sig, "expect_traits": traits, "known_finding": k.id})).unwrap());
+                }
+            }
         }
     }
     for (kid, (n, sig)) in &known_seen {
@@ -1088,6 +1106,7 @@ pub fn replay_main(prop: &dyn Prop, file: &Path, quiet: bool) -> i32 {
         }
         Verdict::Fail(f) => {
             println!("SIGNATURE {}", f.signature);
+            println!("TRAITS {}", f.traits.join("+"));
             if !quiet {
                 println!("{}", f.message);
                 println!("{}", serde_json::to_string_pretty(&f.detail).unwrap_or_default());
